@@ -222,7 +222,8 @@ pub fn zone_switch_case(rec: &mut Rec, rng: &mut Rng, prop: &'static str) {
     let (za, zb) = (gen_zone(rng), gen_zone(rng));
     let i = super::c09::gen_c09_instant(rng).clamp(MIN_INSTANT + 400 * D, MAX_INSTANT - 400 * D);
     let pat = *rng.pick(&["yyyy-MM-dd HH:mm:ss", "HH:mm xxx", "yyyy/MM/dd HH:mm:ss", "e w D h a", "yyyy-MM-dd'T'HH:mm:ss.nnnXXX"]);
-    let shown = |d: &DateTime| format!("{} | {} | {}", summary(d), d.format(pat), d);
+    let in_rfc_years = (0..crate::model::calendar::days_from_civil(9999, 12, 30) as i128 * D).contains(&(i - 2 * D));
+    let shown = |d: &DateTime| format!("{} | {} | {} | {}", summary(d), d.format(pat), d, if in_rfc_years { d.format_rfc3339(astrolabe::Precision::Millis) } else { String::new() });
     let r = trap(|| {
         let b = mk(i).set_offset(Offset::Local);
         // first the bare sequence — the same call on the same value, only the system zone changes in between
